@@ -97,7 +97,11 @@ def concretise(chk, sc, cfgseed, ndims, style=None):
         # an index space that does not start at 0 (validated by the default checks, which never turn indices into coordinates)
         # (also FAR from 0: four to six digits per index, as on the finest level of a production run -- the FAB header and the
         # level header's box entries are then well over a hundred characters long)
-        gamma.shift_indices(ap, [[-8, -3, -16], [-4, 0, -1], [5, -2, 0], [1000, 20000, 300000], [-100000, 4096, 65536]][cfgseed % 5])
+        shifts = [[-8, -3, -16], [-4, 0, -1], [5, -2, 0], [1000, 20000, 300000], [-100000, 4096, 65536]]
+        # (style value "far": one of the two far shifts, with the large component on the axis along which the boxes sit side by
+        # side -- neighbouring boxes then differ by a few cells in a hundred thousand)
+        sh_ = shifts[cfgseed % 5] if style["ishift"] != "far" else [[300000, 1000, 20000], [-400000, 4096, 65536]][cfgseed % 2]
+        gamma.shift_indices(ap, sh_)
     d = os.path.join(chk.tmp_reuse(), "p")
     os.makedirs(os.path.dirname(d))
     lv = sc["cl"] - 1
@@ -419,3 +423,19 @@ def read_consistency(d, sc, ndims, open_as=None):
 
 def sig_of(sc, ndims, extra=None):
     return util.sig_str(sc["sig"], ndims, extra)
+
+
+def is_redirect(sc):
+    """A single FodOffset that points exactly at the FAB header of ANOTHER box of the same file (the validator then reads a genuine
+    header: only the comparison of its index range with the level header's tells the damage)."""
+    a = sc.get("applied") or []
+    if len(a) != 1 or a[0].get("k") != "FodOffset":
+        return False
+    b, off = a[0]["b"], a[0]["off"]
+    f = sc["lay"]["file"][b - 1]
+    files = sc["state"]["files"]
+    units = files[str(f)] if isinstance(files, dict) else files[f - 1]
+    for p, u in enumerate(units):
+        if p == off:
+            return u != 0 and u[0] != b
+    return False
